@@ -1,6 +1,7 @@
 import OpusProofs.EncSkelWfLow
 import OpusProofs.EncSkelWfMulti
 import OpusProofs.EncSkelWfSingle
+import OpusProofs.EncSkelWfMultiPad
 import OpusProps.C02
 /-
   Property C02, slice `Wf` — packet well-formedness of EVERY output shape of the encoder skeleton, with NO
@@ -310,6 +311,39 @@ example : entryCheck OpusProps.C02.exSt 2880 4000 = none ∧
     (encodeNative OpusProps.C02.exSt false 2880 4000 (OpusProps.C02.exOr 158)).ret = 480 ∧
     (encodeNative OpusProps.C02.exSt false 2880 4000 (OpusProps.C02.exOr 158)).pkt.lens = [158, 158, 158] ∧
     (encodeNative OpusProps.C02.exSt false 2880 4000 (OpusProps.C02.exOr 158)).pkt.hdr = [255, 67, 3] := by
+  decide +kernel
+
+/-- `encode_wellformed_multiframe` with the `pad` argument PINNED to the code's `!st->use_vbr && (dtx_count != nb_frames)`
+    (opus_encoder.c:1742), `dtx_count` (`dtxOf`) = the number of sub-frame calls of the loop that returned 1 byte
+    (:1728-1730): on the multi-frame path, for every success return within the contracts and ANY payload contents of
+    the recorded lengths, the repacketiser MODEL run — init, one `cat` per sub-frame on exactly the bytes that frame call
+    wrote, `out_range_impl(rp, 0, nb_frames, data, repacketize_len, 0, !use_vbr && dtx_count != nb_frames, NULL, 0)` —
+    accepts every `cat` and returns exactly the emitted bytes. -/
+theorem encode_wellformed_multiframe_pad (s : St) (fuzz : Bool) (fsz out : Int) (o : NatOr)
+    (he : entryCheck s fsz out = none) (htm : takesMulti s fuzz fsz out o = true)
+    (hok : (encodeNative s fuzz fsz out o).ok = true)
+    (frames : List Bytes) (hfl : frames.map List.length = (encodeNative s fuzz fsz out o).pkt.lens) :
+    repackRun
+        (List.zipWith subBytes
+          (multiTrace (ctxOf s fuzz fsz out o) (decOf s fuzz fsz out o) (effSilence (budgetSt s o fsz out) o)
+            (ctxOf s fuzz fsz out o).nbFrames.toNat 0 o.frames (acc0 (multiSt0 (decOf s fuzz fsz out o).st)))
+          frames)
+        frames.length (ctxOf s fuzz fsz out o).repacketizeLen.toNat
+        (decide ((decOf s fuzz fsz out o).st.useVbr = 0 ∧
+          dtxOf (multiTrace (ctxOf s fuzz fsz out o) (decOf s fuzz fsz out o) (effSilence (budgetSt s o fsz out) o)
+            (ctxOf s fuzz fsz out o).nbFrames.toNat 0 o.frames (acc0 (multiSt0 (decOf s fuzz fsz out o).st))) ≠
+          (ctxOf s fuzz fsz out o).nbFrames)) =
+      .ok (pktBytes (encodeNative s fuzz fsz out o).pkt.hdr frames (encodeNative s fuzz fsz out o).pkt.size) :=
+  encode_multi_wf_pad s fuzz fsz out o he htm hok frames hfl
+
+/-- the 60 ms CBR example call: `use_vbr = 0`, no sub-frame returned 1 byte, so `pad = 1`. -/
+example : takesMulti OpusProps.C02.exSt false 2880 4000 (OpusProps.C02.exOr 158) = true ∧
+    (decOf OpusProps.C02.exSt false 2880 4000 (OpusProps.C02.exOr 158)).st.useVbr = 0 ∧
+    dtxOf (multiTrace (ctxOf OpusProps.C02.exSt false 2880 4000 (OpusProps.C02.exOr 158))
+        (decOf OpusProps.C02.exSt false 2880 4000 (OpusProps.C02.exOr 158))
+        (effSilence (budgetSt OpusProps.C02.exSt (OpusProps.C02.exOr 158) 2880 4000) (OpusProps.C02.exOr 158)) 3 0
+        (OpusProps.C02.exOr 158).frames
+        (acc0 (multiSt0 (decOf OpusProps.C02.exSt false 2880 4000 (OpusProps.C02.exOr 158)).st))) = 0 := by
   decide +kernel
 
 end OpusProps.C02Wf
